@@ -51,6 +51,10 @@ def run(ctx):
                                               "chunks_i": [None, None] + list(range(2 ** (nn - 1))), "by_dask": [False, True]}, build))
     spaces.append(gen.Space("i8-5", {"vals": gen.seqs([gen.iv(-1), gen.iv(0), gen.iv(3)], 5), "codes": pats[5], "func": FUNCS, "chunks_i": [None] + list(range(16)),
                                      "by_dask": [False]}, lambda **kw: build(dtype="i8", **kw)))
+    spaces.append(gen.Space("i1-5", {"vals": gen.seqs([gen.iv(100), gen.iv(-100), gen.iv(27)], 5), "codes": pats[5][:4], "func": ["nancumsum", "ffill"],
+                                     "chunks_i": [None] + list(range(16)), "by_dask": [False]}, lambda **kw: build(dtype="i1", **kw)))
+    spaces.append(gen.Space("u1-4", {"vals": gen.seqs([gen.iv(200), gen.iv(3), gen.iv(255)], 4), "codes": pats[4][:4], "func": ["nancumsum"],
+                                     "chunks_i": [None] + list(range(8)), "by_dask": [False]}, lambda **kw: build(dtype="u1", **kw)))
     spaces.append(gen.Space("b1-4", {"vals": gen.seqs(gen.ALPHA_BOOL, 4), "codes": pats[4], "func": FUNCS, "chunks_i": [None] + list(range(8)),
                                      "by_dask": [False]}, lambda **kw: build(dtype="b1", **kw)))
     budget = 12000 if ctx.tier == "quick" else 250000
